@@ -210,6 +210,19 @@ CHECKS = {
             "corruption and keyed by that specific input: image + object.field operator old->new).",
             "The universe is finite and was soaked completely; quick runs a seeded 3000-case sample of it.",
             "DESIGN.md section 2, C01"),
+    "C06": ("exploration",
+            "compiler sanitizers as the oracle: an AddressSanitizer(+bounds) build of every tool run, one process "
+            "per (input, tool) with report text captured, exit status and signal judged against the documented "
+            "set, and a watchdog (first expiry re-run alone, only a second expiry is a hang); inputs come from a "
+            "finite, enumerable universe of structured and unstructured corruptions of committed corpus images, "
+            "external journals, undo files and qcow2 images",
+            "For the 84000 enumerated inputs x ~14 tool invocations (e2fsck -fn/-fp/-fy, dumpe2fs [-x], tune2fs -l, "
+            "resize2fs -P, e2image -r/-Q and qcow2->raw, e2undo [-n], e2freefrag, a read-only debugfs script incl. "
+            "logdump/htree_dump/rdump/cat) no ASan/bounds report, no fatal signal, no undocumented exit status and "
+            "no reproducible hang was observed; held on these executions, not a proof of memory safety.",
+            "ASan red zones only (no intra-object / stale-but-mapped reads), no MSan; output-size-governed "
+            "commands are cut off after 8 MB; thorough = the whole universe, quick = a seeded 2% sample.",
+            "DESIGN.md section 2, C06"),
     "C02": ("exploration",
             "runtime monitoring with an independent oracle: every image on which e2fsck -fn exits 0 is "
             "re-read by pyext4/check.py (no libext2fs code: five invariant families), over two finite "
